@@ -211,22 +211,22 @@ def vround (v : Val α) (n : Int) : Except Crash (Val α) :=
 /-! ### Python ints: bitwise operators (two's complement on unbounded ints) -/
 
 def iand : Int → Int → Int
-  | .ofNat a, .ofNat b => Int.ofNat (Nat.land a b)
-  | .ofNat a, .negSucc b => Int.ofNat (a - Nat.land a b)
-  | .negSucc a, .ofNat b => Int.ofNat (b - Nat.land a b)
-  | .negSucc a, .negSucc b => Int.negSucc (Nat.lor a b)
+  | .ofNat a, .ofNat b => Int.ofNat (a &&& b)
+  | .ofNat a, .negSucc b => Int.ofNat (a ^^^ (a &&& b))          -- a & ~b
+  | .negSucc a, .ofNat b => Int.ofNat (b ^^^ (a &&& b))          -- ~a & b
+  | .negSucc a, .negSucc b => Int.negSucc (a ||| b)              -- ~a & ~b = ~(a | b)
 
 def ior : Int → Int → Int
-  | .ofNat a, .ofNat b => Int.ofNat (Nat.lor a b)
-  | .ofNat a, .negSucc b => Int.negSucc (b - Nat.land a b)
-  | .negSucc a, .ofNat b => Int.negSucc (a - Nat.land a b)
-  | .negSucc a, .negSucc b => Int.negSucc (Nat.land a b)
+  | .ofNat a, .ofNat b => Int.ofNat (a ||| b)
+  | .ofNat a, .negSucc b => Int.negSucc (b ^^^ (a &&& b))        -- a | ~b = ~(b & ~a)
+  | .negSucc a, .ofNat b => Int.negSucc (a ^^^ (a &&& b))        -- ~a | b = ~(a & ~b)
+  | .negSucc a, .negSucc b => Int.negSucc (a &&& b)              -- ~a | ~b = ~(a & b)
 
 def ixor : Int → Int → Int
-  | .ofNat a, .ofNat b => Int.ofNat (Nat.xor a b)
-  | .ofNat a, .negSucc b => Int.negSucc (Nat.xor a b)
-  | .negSucc a, .ofNat b => Int.negSucc (Nat.xor a b)
-  | .negSucc a, .negSucc b => Int.ofNat (Nat.xor a b)
+  | .ofNat a, .ofNat b => Int.ofNat (a ^^^ b)
+  | .ofNat a, .negSucc b => Int.negSucc (a ^^^ b)
+  | .negSucc a, .ofNat b => Int.negSucc (a ^^^ b)
+  | .negSucc a, .negSucc b => Int.ofNat (a ^^^ b)
 
 /-- `~n = -n - 1` -/
 def inot (n : Int) : Int := -n - 1
